@@ -280,9 +280,10 @@ def task_process():
         try:
             I.call(IBound(f, b), [cb], {})
         except IRaise as e:
-            run.fail("C11,C08|process/raises-nothing-of-its-own", "process raised %s" % e)
+            run.fail("C11,C08,C12|process/raises-nothing-of-its-own", "process raised %s" % e)
             return
         run.cover("cover[process]/post")
+        run.oblige("C12|process/raises-nothing-of-its-own", z3.BoolVal(True))
         d1 = cur_data(I, b)
         run.oblige("C11|process/retains-at-most-the-threshold", implies(is_int(th), z3.Length(d1) <= get_i(th)))
         run.oblige("C11,C02|process/retained-data-is-a-suffix-of-the-input", z3.BoolVal(True))
@@ -302,8 +303,9 @@ def task_find():
         try:
             r = I.call(IBound(f, b), [], {})
         except IRaise as e:
-            run.fail("C11|_find_message_in_buffer/raises-nothing", "raised %s" % e)
+            run.fail("C11,C12|_find_message_in_buffer/raises-nothing", "raised %s" % e)
             return
+        run.oblige("C12|_find_message_in_buffer/raises-nothing(whatever-the-parser-raises)", z3.BoolVal(True))
         if not (isinstance(r, tuple) and len(r) == 2):
             run.fail("C11,C02|_find_message_in_buffer/returns-a-pair", "returned %r" % (r,))
             return
